@@ -168,6 +168,10 @@ A_SameIdDifferentPeersIndependent ==
         /\ (resp' # resp => resp' = Append(resp, [peer |-> act'.a, id |-> act'.id]) /\ LiveFor(stab, act'.a, act'.id))
         /\ \A j \in 1..Len(stab) : (stab[j].peer # act'.a \/ stab[j].id # act'.id) => \E m \in 1..Len(stab') : stab'[m] = stab[j]
 SameIdDifferentPeersIndependent == [][A_SameIdDifferentPeersIndependent]_vars
+\* a request whose (peer, ID) is not being processed is handed to the application, whatever other peers have in progress
+A_NewRequestIndicated == (act'.op = "scr" /\ ~LiveFor(stab, act'.a, act'.id)) =>
+                             (inds' = Append(inds, [peer |-> act'.a, id |-> act'.id]) /\ LiveFor(stab', act'.a, act'.id))
+NewRequestIndicated == [][A_NewRequestIndicated]_vars
 A_NewRequestGetsFreshKey ==
     act'.op \in {"auto", "chosen"} => (Len(ctab') > Len(ctab) => ~LiveFor(ctab, ctab'[Len(ctab')].peer, ctab'[Len(ctab')].id))
 NewRequestGetsFreshKey == [][A_NewRequestGetsFreshKey]_vars
